@@ -68,6 +68,11 @@ def _parse_from_prepared_metadata(
                         root_logger,
                         "setLevel",
                         _fake_set_level,
+                        # Backends such as setuptools replace sys.argv and never
+                        # put it back.
+                        sys,
+                        "argv",
+                        list(sys.argv),
                     ):
                         info = prepare(dest)
                 finally:
